@@ -6,9 +6,11 @@ import (
 	"fmt"
 	"os"
 	"path/filepath"
+	"runtime"
 	"sort"
 	"strings"
 	"sync"
+	"sync/atomic"
 	"testing"
 	"time"
 
@@ -171,6 +173,12 @@ func (c *collector) begin(i int) {
 	c.mu.Unlock()
 }
 
+func (c *collector) sawEndFile() bool {
+	c.mu.Lock()
+	defer c.mu.Unlock()
+	return c.endFile
+}
+
 func (c *collector) end() {
 	c.mu.Lock()
 	c.done++
@@ -212,6 +220,12 @@ type c20Run struct {
 	liveErr  error // a clean restart inside the history failed
 	liveAt   int
 	mismatch int // live outcome differs from what the model expects (reported, never asserted)
+
+	batchOutcomes    map[int][]error // per "batch" step: live result of every member
+	batchRejected    int             // batches in which at least one member was rejected
+	batchRollbacks   int             // batches during which the store rolled an entry back
+	batches          int
+	batchUnexplained string // a batch whose results no ordering of its members explains (history cut there)
 }
 
 // runC20History applies ops through the real Start loop and records a crash
@@ -230,7 +244,7 @@ func runC20History(root string, ops []op, flush time.Duration) (*c20Run, error) 
 	registerCollector(col)
 	defer unregisterCollector(col)
 
-	run := &c20Run{ops: ops, liveAt: -1}
+	run := &c20Run{ops: ops, liveAt: -1, batchOutcomes: map[int][]error{}}
 	kv, err := newAOF(abs, flush)
 	if err != nil {
 		return nil, fmt.Errorf("creating the store: %w", err)
@@ -256,6 +270,36 @@ func runC20History(root string, ops []op, flush time.Duration) (*c20Run, error) 
 			}
 			kv = kv2
 			go kv.Start()
+		} else if o.Kind == "batch" {
+			errs := runConcurrently(kv, o.Batch)
+			run.batchOutcomes[i] = errs
+			run.batches++
+			for _, e := range errs {
+				if e != nil {
+					run.batchRejected++
+					break
+				}
+			}
+			if col.sawEndFile() {
+				run.batchRollbacks++
+			}
+			// the members raced, so their order is whatever the store made it:
+			// read the key back and adopt the state if some ordering of all
+			// members, consistent with every member's result, produces it
+			live, rerr := readStore(kv, c20Keys, false)
+			var next model
+			if rerr == nil {
+				next = explainBatch(m, o.Batch, errs, live.canon(c20Keys, false))
+			}
+			if next == nil {
+				run.batchUnexplained = fmt.Sprintf("step %d %s results %v live state %v (read error %v)", i, o, errStrings(errs), live, rerr)
+				col.end()
+				run.outcomes = append(run.outcomes, nil)
+				run.states = append(run.states, m.clone())
+				run.ops = ops[:i+1]
+				break
+			}
+			m = next
 		} else {
 			expectReject := m.wouldReject(o)
 			opErr = applyKV(kv, o)
@@ -281,6 +325,102 @@ func runC20History(root string, ops []op, flush time.Duration) (*c20Run, error) 
 		return nil, fmt.Errorf("snapshotting the log directory: %w", serr)
 	}
 	return run, nil
+}
+
+// runConcurrently issues the members of a batch at the same instant: one
+// goroutine each, all spinning on a barrier that is lifted once every one of
+// them is running.
+func runConcurrently(kv chord.KVProvider, members []op) []error {
+	errs := make([]error, len(members))
+	var ready atomic.Int32
+	var release atomic.Bool
+	var wg sync.WaitGroup
+	for i, o := range members {
+		wg.Add(1)
+		go func() {
+			defer wg.Done()
+			ready.Add(1)
+			for n := 0; !release.Load(); n++ {
+				if n > 1<<18 {
+					runtime.Gosched() // starved machine: do not hold a core for ever
+				}
+			}
+			errs[i] = applyKV(kv, o)
+		}()
+	}
+	for int(ready.Load()) < len(members) {
+		runtime.Gosched()
+	}
+	release.Store(true)
+	wg.Wait()
+	return errs
+}
+
+// permutations calls fn with every ordering of every k-subset of 0..n-1 for
+// k in ks (n <= 4, so at most 65 sequences).
+func permutations(n int, ks map[int]bool, fn func(seq []int)) {
+	var seq []int
+	used := make([]bool, n)
+	var rec func()
+	rec = func() {
+		if ks[len(seq)] {
+			fn(seq)
+		}
+		for i := 0; i < n; i++ {
+			if !used[i] {
+				used[i] = true
+				seq = append(seq, i)
+				rec()
+				seq = seq[:len(seq)-1]
+				used[i] = false
+			}
+		}
+	}
+	rec()
+}
+
+// explainBatch returns the model after the batch if some ordering of ALL
+// members, in which every member is rejected exactly when it really was,
+// yields the state the live store shows; nil otherwise.
+func explainBatch(pre model, members []op, errs []error, liveCanon string) model {
+	var found model
+	permutations(len(members), map[int]bool{len(members): true}, func(seq []int) {
+		if found != nil {
+			return
+		}
+		m := pre.clone()
+		for _, i := range seq {
+			if m.wouldReject(members[i]) != (errs[i] != nil) {
+				return
+			}
+			if errs[i] == nil {
+				m.apply(members[i])
+			}
+		}
+		if m.snapshot(c20Keys).canon(c20Keys, false) == liveCanon {
+			found = m
+		}
+	})
+	return found
+}
+
+// batchCandidates is the set of states a crash in the middle of a batch may
+// leave: the state before it plus any subset of its members in any order
+// (a member the contract rejects at its place in the order has no effect).
+func batchCandidates(pre model, members []op) map[string]bool {
+	out := map[string]bool{}
+	all := map[int]bool{}
+	for k := 0; k <= len(members); k++ {
+		all[k] = true
+	}
+	permutations(len(members), all, func(seq []int) {
+		m := pre.clone()
+		for _, i := range seq {
+			m.apply(members[i])
+		}
+		out[m.snapshot(c20Keys).canon(c20Keys, false)] = true
+	})
+	return out
 }
 
 // ---- checking one image -------------------------------------------------------
@@ -472,6 +612,7 @@ func checkC20Run(root string, rec *ev.Recorder, run *c20Run, histKey string, tag
 	}
 	wg.Wait()
 
+	batchSets := map[int]map[string]bool{}
 	var first *c20Failure
 	fail := func(sig string, r imgResult, format string, args ...any) {
 		if first != nil {
@@ -489,6 +630,9 @@ func checkC20Run(root string, rec *ev.Recorder, run *c20Run, histKey string, tag
 		}
 		if img.inflight >= 0 && img.inflight < len(run.ops) {
 			doc["in_flight_op"] = run.ops[img.inflight].String()
+			if bo, ok := run.batchOutcomes[img.inflight]; ok {
+				doc["in_flight_batch_results"] = errStrings(bo)
+			}
 		}
 		if r.got != nil {
 			doc["recovered"] = r.got
@@ -512,7 +656,14 @@ func checkC20Run(root string, rec *ev.Recorder, run *c20Run, histKey string, tag
 		} else {
 			labels = append(labels, "inflight:none")
 		}
-		if nt && !rejected {
+		if img.inflight >= 0 && run.ops[img.inflight].Kind == "batch" {
+			if img.appended {
+				labels = append(labels, "window:concurrent-batch-partly-in-log")
+			}
+			if img.endFile || strings.Contains(img.base, ".END") {
+				labels = append(labels, "window:rollback-inside-concurrent-batch")
+			}
+		} else if nt && !rejected {
 			labels = append(labels, "window:accepted-mutation-appended-not-yet-acknowledged")
 		}
 		if rejected {
@@ -554,7 +705,16 @@ func checkC20Run(root string, rec *ev.Recorder, run *c20Run, histKey string, tag
 		want0 := run.states[img.done].snapshot(c20Keys)
 		ok := got == want0.canon(c20Keys, false)
 		var want1 snapshot
-		if !ok && img.inflight >= 0 && img.done+1 < len(run.states) {
+		var wantSet map[string]bool
+		if !ok && img.inflight >= 0 && run.ops[img.inflight].Kind == "batch" {
+			// taken while 2..4 mutations were racing: any subset of them, in
+			// any order, may have reached the log
+			if batchSets[img.inflight] == nil {
+				batchSets[img.inflight] = batchCandidates(run.states[img.done], run.ops[img.inflight].Batch)
+			}
+			wantSet = batchSets[img.inflight]
+			ok = wantSet[got]
+		} else if !ok && img.inflight >= 0 && img.done+1 < len(run.states) {
 			// the in-flight mutation as if it had been acknowledged
 			m1 := run.states[img.done].clone()
 			if o := run.ops[img.inflight]; o.Kind != "restart" {
@@ -573,6 +733,14 @@ func checkC20Run(root string, rec *ev.Recorder, run *c20Run, histKey string, tag
 					got, want0.canon(c20Keys, false), func() string {
 						if want1 != nil {
 							return " or " + want1.canon(c20Keys, false)
+						}
+						if wantSet != nil {
+							alts := []string{}
+							for k := range wantSet {
+								alts = append(alts, k)
+							}
+							sort.Strings(alts)
+							return " or any of the states a subset of the racing batch can produce: " + strings.Join(alts, " / ")
 						}
 						return ""
 					}())
@@ -622,19 +790,19 @@ func genC20Op(big bool) *rapid.Generator[op] {
 			k = 0 // only puts, with segment-sized values
 		}
 		switch {
-		case k < 22:
+		case k < 20:
 			v := small.Draw(t, "val")
 			if big {
 				v = valSpec{Fill: rapid.SampledFrom([]string{"B1", "B2", "B3"}).Draw(t, "fill"), Len: rapid.SampledFrom([]int{700 << 10, 1100 << 10, 2100 << 10}).Draw(t, "len")}
 			}
 			return op{Kind: "put", Key: key.Draw(t, "key"), Val: v}
-		case k < 30:
+		case k < 27:
 			return op{Kind: "del", Key: key.Draw(t, "key")}
-		case k < 65:
+		case k < 55:
 			return op{Kind: "app", Key: key.Draw(t, "key"), Child: child.Draw(t, "child")}
-		case k < 75:
+		case k < 63:
 			return op{Kind: "rem", Key: key.Draw(t, "key"), Child: child.Draw(t, "child")}
-		case k < 85:
+		case k < 72:
 			n := rapid.IntRange(1, 3).Draw(t, "n")
 			o := op{Kind: "imp"}
 			for i := 0; i < n; i++ {
@@ -643,12 +811,58 @@ func genC20Op(big bool) *rapid.Generator[op] {
 				o.Imp = append(o.Imp, e)
 			}
 			return o
-		case k < 93:
+		case k < 78:
 			return op{Kind: "rmk", Keys: rapid.SliceOfNDistinct(key, 1, 3, rapid.ID[string]).Draw(t, "keys")}
+		case k < 96:
+			return genC20Batch(t)
 		default:
 			return op{Kind: "restart"}
 		}
 	})
+}
+
+// genC20Batch: 2..4 mutations on ONE key, issued at the same instant by as
+// many goroutines - the same PrefixAppend several times, append against
+// remove of the same child, put against delete, or a free mix of those.
+func genC20Batch(t *rapid.T) op {
+	k := rapid.SampledFrom(c20Keys).Draw(t, "bkey")
+	c := rapid.SampledFrom(c20Children).Draw(t, "bchild")
+	n := rapid.IntRange(2, 4).Draw(t, "bn")
+	vals := []valSpec{{"c1", 2}, {"c2", 2}, {"cw", 300}}
+	o := op{Kind: "batch", Key: k}
+	member := func(kind int, i int) op {
+		switch kind {
+		case 0:
+			return op{Kind: "app", Key: k, Child: c}
+		case 1:
+			return op{Kind: "rem", Key: k, Child: c}
+		case 2:
+			return op{Kind: "put", Key: k, Val: vals[i%len(vals)]}
+		default:
+			return op{Kind: "del", Key: k}
+		}
+	}
+	switch rapid.IntRange(0, 9).Draw(t, "btemplate") {
+	case 1, 2, 3, 4, 5: // the same append from every goroutine
+		for i := 0; i < n; i++ {
+			o.Batch = append(o.Batch, member(0, i))
+		}
+	case 6, 7: // append(s) against a remove of the same child
+		o.Batch = append(o.Batch, member(0, 0), member(1, 0))
+		for i := 2; i < n; i++ {
+			o.Batch = append(o.Batch, member(0, i))
+		}
+	case 8: // put(s) against a delete
+		o.Batch = append(o.Batch, member(2, 0), member(3, 0))
+		for i := 2; i < n; i++ {
+			o.Batch = append(o.Batch, member(2, i))
+		}
+	default: // free mix on the key
+		for i := 0; i < n; i++ {
+			o.Batch = append(o.Batch, member(rapid.IntRange(0, 3).Draw(t, "bmember"), i))
+		}
+	}
+	return o
 }
 
 type c20Case struct {
@@ -723,7 +937,7 @@ func c20Witness(t *testing.T, rec *ev.Recorder, root string) {
 
 func TestC20(t *testing.T) {
 	rec := ev.New(t, "C20")
-	rec.Rule("rapid-generated mutation histories (put, delete, prefix append over 3 children so that conflicts are frequent, prefix remove, import with overlapping keys, remove-keys, clean restart; 5..30 mutations, thorough 5..60; one history in a hundred (thorough: twenty), plus one fixed history per run, with 0.7-2.1 MiB values arranged so that the segment cycles and a rejected append is rolled back across segments; one in four with a 20 us flush ticker) run through the real Start loop. Every MkdirAll/OpenFile/Write/Sync/Close/Rename/Remove of the WAL library yields one crash image (copy of the log directory) tagged (mutations completed, mutation in flight); ALL images of a history are reopened with aof.New and read back (Get + PrefixList of every alphabet key). One evaluation = one image. Non-trivial: the image was taken while the log is ahead of the acknowledged prefix, i.e. the entry of the in-flight mutation is already in a segment file and the client has no answer yet (for a mutation the store rejects this lasts from the write of its entry to the end of its rollback; those images are labelled window:rejected-mutation-in-log). Distinct = distinct (history, image index).")
+	rec.Rule("rapid-generated mutation histories (put, delete, prefix append over 3 children so that conflicts are frequent, prefix remove, import with overlapping keys, remove-keys, clean restart, and 'concurrent batch' steps in which 2..4 goroutines released from a spin barrier issue mutations on one key at the same instant - the same PrefixAppend from all of them, append vs remove of one child, put vs delete, or a mix; 5..30 steps, thorough 5..60; one history in a hundred (thorough: twenty), plus one fixed history per run, with 0.7-2.1 MiB values arranged so that the segment cycles and a rejected append is rolled back across segments; one in four with a 20 us flush ticker) run through the real Start loop. Every MkdirAll/OpenFile/Write/Sync/Close/Rename/Remove of the WAL library yields one crash image (copy of the log directory) tagged (mutations completed, mutation in flight); ALL images of a history are reopened with aof.New and read back (Get + PrefixList of every alphabet key); an image taken during a concurrent batch must equal the state before the batch plus some subset of its members in some order, and after the batch the model continues from the live state provided an ordering of all members consistent with their results explains it. One evaluation = one image. Non-trivial: the image was taken while the log is ahead of the acknowledged prefix, i.e. the entry of the in-flight mutation is already in a segment file and the client has no answer yet (for a mutation the store rejects this lasts from the write of its entry to the end of its rollback; those images are labelled window:rejected-mutation-in-log). Distinct = distinct (history, image index).")
 	rec.Assume(
 		"crash = the process stops (SIGKILL, panic, OOM kill): everything handed to the kernel survives, so a copy of the directory at a file-operation boundary is the post-crash image; power loss / torn sectors are C22's subject",
 		"granularity is the file-operation boundary named by the property's quantifier; a write(2) is not split",
@@ -753,7 +967,7 @@ func TestC20(t *testing.T) {
 		}
 	}
 
-	ev.RapidCheck(t, 150, 3000, func(rt *rapid.T) {
+	ev.RapidCheck(t, 120, 3000, func(rt *rapid.T) {
 		c := genC20Case(rt)
 		t0 := time.Now()
 		defer func() {
@@ -768,6 +982,14 @@ func TestC20(t *testing.T) {
 		rec.Add("histories", 1)
 		rec.Add("images", int64(len(run.images)))
 		rec.Add("live_outcome_differs_from_model", int64(run.mismatch))
+		rec.Add("concurrent_batches", int64(run.batches))
+		rec.Add("concurrent_batches_with_a_rejected_member", int64(run.batchRejected))
+		rec.Add("concurrent_batches_with_a_rollback", int64(run.batchRollbacks))
+		if run.batchUnexplained != "" {
+			// not this property's subject (C18); the history is cut at that step
+			rec.Inconclusive("concurrent-batch-result-not-explained-by-any-order")
+			fmt.Printf("C20 note: %s\n", run.batchUnexplained)
+		}
 		var tags []string
 		if c.Big {
 			tags = append(tags, "history:segment-crossing-values")
